@@ -112,7 +112,10 @@ class Check(object):
         for k in part.get('nontrivial', []):
             self.nontrivial.add(k)
         for s in part.get('samples', []):
-            self.sample(s)
+            if isinstance(s, dict) and 'slow_case_seconds' in s:
+                self.samples.insert(0, s)
+            else:
+                self.sample(s)
         for v in part.get('violations', []):
             self.violation(v['key'], v.get('detail'), v.get('replay'))
         for i in part.get('inconclusive', []):
